@@ -5,6 +5,8 @@
    Every theorem is for ALL server states (any tree, any attribute/dir cache contents and configuration, any
    handle table), credentials, handles, offsets, counts and payloads.  Hypotheses used:
      lookup_node s h = Some (p, na)     the handle is live and denotes path p
+     na_kind na <> KLink                the node recorded with the handle is not a symbolic link (READ, WRITE and
+                                        SETATTR answer INVAL on symlink handles: see the *_guard theorems)
      plain_file (fs s) p o              p resolves to itself, with and without following a final symlink,
                                         and the object o there is a regular file
      nodup_keys (fs s)                  (WRITE only) the flat map has no duplicate key - part of the backend's
@@ -30,7 +32,7 @@ Proof. exact sd_read_spec. Qed.
    holes); eof iff offset + count reaches the size; nothing changes in the tree or the configuration and no
    mutating backend call is made *)
 Theorem C01_read : forall s h p na o off cnt,
-  lookup_node s h = Some (p, na) -> plain_file (fs s) p o -> off + cnt < two64 -> off < two63N ->
+  lookup_node s h = Some (p, na) -> na_kind na <> KLink -> plain_file (fs s) p o -> off + cnt < two64 -> off < two63N ->
   let r := handle_read s h off cnt in
   let count := if o_size o <=? off then 0 else N.min (N.min cnt (tsize (conf s))) (o_size o - off) in
   ob_rpc (snd r) = 0 /\ ob_status (snd r) = 0 /\ ob_nums (snd r) = [count] /\
@@ -40,11 +42,14 @@ Theorem C01_read : forall s h p na o off cnt,
    ((forall b, In b (blog s) -> mutating b = false) -> forall b, In b (blog (fst r)) -> mutating b = false)).
 Proof. exact handle_read_ok. Qed.
 
-(* offset + count >= 2^64 -> INVAL; offset >= 2^63 ("negative offset") -> IO; the state is returned untouched *)
+(* offset + count >= 2^64 -> INVAL; symlink handle -> INVAL; offset >= 2^63 ("negative offset") -> IO; the state is
+   returned untouched *)
 Theorem C01_read_guard : forall s h off cnt,
   let r := handle_read s h off cnt in
   (cnt < two64 -> two64 <= off + cnt -> r = (s, fail_post NFSERR_INVAL)) /\
-  (off + cnt < two64 -> two63N <= off -> forall p na, lookup_node s h = Some (p, na) -> r = (s, fail_post NFSERR_IO)).
+  (off + cnt < two64 -> forall p na, lookup_node s h = Some (p, na) -> na_kind na = KLink -> r = (s, fail_post NFSERR_INVAL)) /\
+  (off + cnt < two64 -> two63N <= off -> forall p na, lookup_node s h = Some (p, na) -> na_kind na <> KLink ->
+     r = (s, fail_post NFSERR_IO)).
 Proof. exact handle_read_guard. Qed.
 
 (* ---------- WRITE ---------- *)
@@ -52,7 +57,7 @@ Proof. exact handle_read_guard. Qed.
    itself (exactly the payload at [off, off+cnt), size max(old, off+cnt), unchanged when cnt = 0), keeps kind,
    permissions and owner, is synced (durable = volatile contents), and no other path changes *)
 Theorem C01_write : forall s h p na o off cnt stable data,
-  lookup_node s h = Some (p, na) -> plain_file (fs s) p o -> nodup_keys (fs s) ->
+  lookup_node s h = Some (p, na) -> na_kind na <> KLink -> plain_file (fs s) p o -> nodup_keys (fs s) ->
   ro (conf s) = false -> cnt = N.of_nat (length data) -> cnt <= tsize (conf s) ->
   off + cnt < two63N ->
   (maxfile (conf s) = 0 \/ cnt = 0 \/ off + cnt <= maxfile (conf s)) ->
@@ -72,13 +77,17 @@ Theorem C01_write_guard : forall s h off cnt stable data,
   (ro (conf s) = false -> cnt < two64 -> two64 <= off + cnt -> r = (s, fail_wcc NFSERR_INVAL)) /\
   (ro (conf s) = false -> off + cnt < two64 -> cnt <> N.of_nat (length data) -> r = (s, fail_wcc GARBAGE)) /\
   (ro (conf s) = false -> off + cnt < two64 -> cnt = N.of_nat (length data) -> tsize (conf s) < cnt ->
-     r = (s, fail_wcc NFSERR_INVAL)).
+     r = (s, fail_wcc NFSERR_INVAL)) /\
+  (* a symbolic-link handle *)
+  (ro (conf s) = false -> off + cnt < two64 -> cnt = N.of_nat (length data) -> cnt <= tsize (conf s) ->
+     (maxfile (conf s) = 0 \/ cnt = 0 \/ off + cnt <= maxfile (conf s)) ->
+     forall p na, lookup_node s h = Some (p, na) -> na_kind na = KLink -> r = (s, fail_wcc NFSERR_INVAL)).
 Proof. exact handle_write_guard. Qed.
 
 (* the int64 rejections: offset >= 2^63 (no backend call at all), and the backend's EINVAL when
    offset + count >= 2^63; NFS3ERR_IO, no count, tree unchanged *)
 Theorem C01_write_guard63 : forall s h p na o off cnt stable data,
-  lookup_node s h = Some (p, na) -> plain_file (fs s) p o ->
+  lookup_node s h = Some (p, na) -> na_kind na <> KLink -> plain_file (fs s) p o ->
   ro (conf s) = false -> cnt = N.of_nat (length data) -> cnt <= tsize (conf s) ->
   off + cnt < two64 -> (maxfile (conf s) = 0 \/ cnt = 0 \/ off + cnt <= maxfile (conf s)) -> two63N <= off + cnt ->
   let r := handle_write s h off cnt stable data in
@@ -89,7 +98,7 @@ Proof. exact handle_write_guard63. Qed.
 
 (* ---------- SETATTR(size) ---------- *)
 Theorem C01_setattr_size : forall s c h p na o sa sz,
-  lookup_node s h = Some (p, na) -> plain_file (fs s) p o -> ro (conf s) = false ->
+  lookup_node s h = Some (p, na) -> na_kind na <> KLink -> plain_file (fs s) p o -> ro (conf s) = false ->
   (s_mode sa = None /\ s_uid sa = None /\ s_gid sa = None /\ s_size sa = Some sz /\ s_atime sa = 0 /\ s_mtime sa = 0) ->
   sz < two63N -> (maxfile (conf s) = 0 \/ sz <= maxfile (conf s)) ->
   let r := handle_setattr s c h sa None in
@@ -102,7 +111,7 @@ Proof. exact handle_setattr_size_ok. Qed.
 
 (* size >= 2^63 -> INVAL, nothing changes *)
 Theorem C01_setattr_size_guard : forall s c h p na fi sa sz,
-  lookup_node s h = Some (p, na) -> be_stat (fs s) p false = Ok fi -> ro (conf s) = false ->
+  lookup_node s h = Some (p, na) -> na_kind na <> KLink -> be_stat (fs s) p false = Ok fi -> ro (conf s) = false ->
   match s_mode sa with Some m => N.testbit m 15 | None => false end = false ->
   s_size sa = Some sz -> two63N <= sz ->
   let r := handle_setattr s c h sa None in
@@ -110,6 +119,12 @@ Theorem C01_setattr_size_guard : forall s c h p na fi sa sz,
   (fs (fst r) = fs s /\ conf (fst r) = conf s /\
    ((forall b, In b (blog s) -> mutating b = false) -> forall b, In b (blog (fst r)) -> mutating b = false)).
 Proof. exact handle_setattr_size_inval. Qed.
+(* a symbolic-link handle -> INVAL, the state is returned untouched *)
+Theorem C01_setattr_link_guard : forall s c h p na sa guard,
+  ro (conf s) = false -> match s_mode sa with Some m => N.testbit m 15 | None => false end = false ->
+  lookup_node s h = Some (p, na) -> na_kind na = KLink ->
+  handle_setattr s c h sa guard = (s, fail_wcc NFSERR_INVAL).
+Proof. exact handle_setattr_link. Qed.
 
 (* ---------- CREATE of a new name ---------- *)
 (* UNCHECKED (0) or GUARDED (1) CREATE of a validated name absent from a plain directory: OK; an empty regular
@@ -180,11 +195,25 @@ Example C01_hole :
    ob_status (snd cr) = 0 /\ option_map o_size (fs_get (fs (fst cr)) [[98]]) = Some 0).
 Proof. vm_compute. repeat split; reflexivity. Qed.
 
+(* a handle of a symbolic link: READ, WRITE and SETATTR answer INVAL and change nothing *)
+Example C01_link_handle :
+  let s0 := srv_init_fs (fs_set (fs_set fs_init [[97]] (mk_file 420 7)) [[108]] (mk_link [97] 7)) ex_cfg 0 100 in
+  let s1 := fst (step s0 ex_cred (RMnt [47])) in
+  let s2 := fst (step s1 ex_cred (RLookup 1 [108])) in
+  (exists p na, lookup_node s2 2 = Some (p, na) /\ na_kind na = KLink) /\
+  (let r := step s2 ex_cred (RRead 2 0 1) in ob_status (snd r) = NFSERR_INVAL /\ fs (fst r) = fs s2 /\ blog (fst r) = []) /\
+  (let r := step s2 ex_cred (RWrite 2 0 1 0 [65]) in ob_status (snd r) = NFSERR_INVAL /\ fs (fst r) = fs s2 /\ blog (fst r) = []) /\
+  (let r := step s2 ex_cred (RSetattr 2 {| s_mode := None; s_uid := None; s_gid := None; s_size := Some 1; s_atime := 0;
+                                          s_atime_v := 0; s_mtime := 0; s_mtime_v := 0 |} None) in
+   ob_status (snd r) = NFSERR_INVAL /\ fs (fst r) = fs s2 /\ blog (fst r) = []).
+Proof. vm_compute. split; [eexists; eexists; split; reflexivity|]. repeat split; reflexivity. Qed.
+
 (* ---------- histories: the model refines the byte-array specification step by step ---------- *)
 (* Definitions (Proofs/SrvData.v, section 8):
      sfiles = path -> option bfile                 the specification state: the files the history is about
      Abs s m    every file of m is a plain regular file of the tree with the same size and bytes
      Good s     no duplicate keys, not read-only, no MaxFileSize, every handle has its node
+     Reg s m    the nodes of the handles that denote files of m are not symbolic links
      dreq       DRead h off cnt | DWrite h off stable data | DTrunc h sz   (READ / WRITE / SETATTR with only a size)
      dreq_valid the inputs C01_read / C01_write / C01_setattr_size cover (the others: the *_guard theorems)
      covered    every request is valid and its handle denotes a file of m
@@ -194,7 +223,8 @@ Proof. vm_compute. repeat split; reflexivity. Qed.
                 specification state updated with spec_write / spec_trunc.
    For histories of any length, arbitrary clock advances and credentials, any cache configuration. *)
 Theorem C01_history : forall l s m,
-  Good s -> Abs s m -> covered (tsize (conf s)) (get (hm s)) m l -> refines (tsize (conf s)) (get (hm s)) s m l.
+  Good s -> Abs s m -> Reg s m -> covered (tsize (conf s)) (get (hm s)) m l ->
+  refines (tsize (conf s)) (get (hm s)) s m l.
 Proof. exact history_refines. Qed.
 
 Example C01_history_hyps :
@@ -203,9 +233,9 @@ Example C01_history_hyps :
              {| d_adv := 6000000000; d_cred := ex_cred; d_req := DRead 2 3 100 |};
              {| d_adv := 0; d_cred := ex_cred; d_req := DTrunc 2 6 |};
              {| d_adv := 0; d_cred := ex_cred; d_req := DRead 2 9223372036854775807 4 |} ] in
-  Good ex_s2 /\ Abs ex_s2 m0 /\ covered (tsize (conf ex_s2)) (get (hm ex_s2)) m0 l.
+  Good ex_s2 /\ Abs ex_s2 m0 /\ Reg ex_s2 m0 /\ covered (tsize (conf ex_s2)) (get (hm ex_s2)) m0 l.
 Proof.
-  cbv zeta. split; [|split].
+  cbv zeta. split; [|split; [|split; [apply reg_check; vm_compute; reflexivity|]]].
   - split; [vm_compute; repeat constructor; cbn; intuition discriminate|].
     split; [reflexivity|]. split; [reflexivity|]. apply live_check. vm_compute. reflexivity.
   - intros p f. destruct (path_eqb p [[97]]) eqn:E; [|discriminate]. apply path_eqb_eq in E. subst p. intros [= <-].
@@ -226,5 +256,6 @@ Print Assumptions C01_write_guard.
 Print Assumptions C01_write_guard63.
 Print Assumptions C01_setattr_size.
 Print Assumptions C01_setattr_size_guard.
+Print Assumptions C01_setattr_link_guard.
 Print Assumptions C01_create_new.
 Print Assumptions C01_history.
